@@ -163,8 +163,9 @@ func (t *tr) ptrHeap(elem types.Type) *Var {
 	return t.newVar(name, arrSort(SInt, srt), nil, true)
 }
 
-func (t *tr) elemHeap(elemSort string) *Var {
-	return t.newVar("E$"+strings.Trim(elemSort, "|"), arrSort(SInt, arrSort(SInt, elemSort)), nil, true)
+// elemHeapT is the heap of slice elements of Go type elemT (slices of different element types cannot alias).
+func (t *tr) elemHeapT(elemT types.Type, elemSort string) *Var {
+	return t.newVar("E$"+typeKey(elemT), arrSort(SInt, arrSort(SInt, elemSort)), nil, true)
 }
 
 func (t *tr) mapHeaps(m *types.Map) (dom, val, ln *Var) {
@@ -332,7 +333,8 @@ func (t *tr) elemAt(env Env, a, i Term) (Term, bool) {
 	switch u := a.T.Underlying().(type) {
 	case *types.Slice:
 		es := t.V.W.sortOf(u.Elem())
-		h := t.elemHeap(es)
+		eT := types.Type(u.Elem())
+		h := t.elemHeapT(eT, es)
 		r := sel(sel(t.readIn(env, h), slArr(a)), add(slOff(a), i))
 		r.T = u.Elem()
 		return r, true
